@@ -69,3 +69,14 @@ Theorem C07_generated_get_max_advance_is_the_model : forall st s i,
   get_max_advance (view st s i) (nexts (s i)) (cur (s i)) (until st) = max_advance st s i.
 Proof. exact tie_get_max_advance. Qed.
 Print Assumptions C07_generated_get_max_advance_is_the_model.
+
+(* tie to the source: the table of triggering ancestors that max_advance reads.  World.cache_triggering_ancestors as regenerated
+   from mosaik/scenario.py on every run (Gen/AncFns.v: the first loop nest and the body of the while loop; driver
+   Static/GenAnc.v) computes the model's `ancestors` for the tables World.connect builds, when the trigger table lists the
+   simulators in their order, one row each.  dirty.pop() takes the oldest element in both (Python leaves the order open). *)
+From MV Require Import Static.Cycle Gen.AncFns Static.GenAnc Static.AncTie.
+Theorem C07_generated_ancestors_are_the_model : forall fuel sims (t : tables), NoDup sims ->
+  t_trig t = map (fun s => (s, aget_l s (t_trig t))) sims ->
+  ancestors_gen fuel sims (fun s => aget_l s (t_trig t)) = ancestors fuel t.
+Proof. exact tie_ancestors. Qed.
+Print Assumptions C07_generated_ancestors_are_the_model.
